@@ -1,3 +1,4 @@
 SPECIFICATION Spec
 CONSTANT Mode = "mc"
 INVARIANTS SafeInv OnlyTheNamedFile NoForeignScheme SpellingIrrelevant MemoOK
+PROPERTIES PatternsFixedAtStart
